@@ -34,6 +34,7 @@ type HdrPair struct {
 
 type c11Case struct {
 	Carrier  string // http | httpmux
+	Base     string `json:",omitempty"` // base path the server is configured with ("" = "/"): only paths under it are registered
 	Method   string
 	Path     string
 	CT       []string  // Content-Type header values (nil = absent)
@@ -176,7 +177,7 @@ type c11Reply struct {
 
 func (c *c11Case) exec(ctValues []string, body []byte) *c11Reply {
 	r := &c11Run{}
-	car := newHTTPHandlerOnly(c.Carrier, newServiceDesc(), c.service(r))
+	car := newHTTPHandlerBase(c.Carrier, c.Base, newServiceDesc(), c.service(r))
 	req := httptest.NewRequest(c.Method, "http://verif.test"+c.Path, bytes.NewReader(body))
 	req.Header.Del("Content-Type")
 	for _, v := range ctValues {
@@ -204,6 +205,31 @@ func (c *c11Case) exec(ctValues []string, body []byte) *c11Reply {
 	return rep
 }
 
+// c11Rel maps a request path to the method path relative to the configured base ("" = not under the base).
+func c11Rel(base, p string) string {
+	if base == "" {
+		return p
+	}
+	if strings.HasPrefix(p, base+"/") {
+		return p[len(base):]
+	}
+	return ""
+}
+
+func newHTTPHandlerBase(carrier, base string, desc *grpc.ServiceDesc, svc interface{}) http.Handler {
+	if base == "" {
+		return newHTTPHandlerOnly(carrier, desc, svc)
+	}
+	if carrier == cHTTPMux {
+		mux := http.NewServeMux()
+		httpgrpc.HandleServices(mux.HandleFunc, base, newHandlerMap(desc, svc), nil, nil)
+		return mux
+	}
+	s := httpgrpc.NewServer(httpgrpc.WithBasePath(base))
+	s.RegisterService(desc, svc)
+	return s
+}
+
 func newHTTPHandlerOnly(carrier string, desc *grpc.ServiceDesc, svc interface{}) http.Handler {
 	if carrier == cHTTPMux {
 		mux := http.NewServeMux()
@@ -217,7 +243,10 @@ func newHTTPHandlerOnly(carrier string, desc *grpc.ServiceDesc, svc interface{})
 
 func propC11(c c11Case) *Outcome {
 	o := &Outcome{}
-	kind, registered := c11Paths[c.Path]
+	kind, registered := c11Paths[c11Rel(c.Base, c.Path)]
+	if c.Base != "" {
+		o.class("base-path/under-base=%v", c11Rel(c.Base, c.Path) != "")
+	}
 	o.class("carrier=%s", c.Carrier)
 	o.class("method=%s", strings.ToUpper(c.Method))
 	if registered {
@@ -450,6 +479,24 @@ func genC11(t *rapid.T) c11Case {
 		c.Path = rapid.SampledFrom([]string{"/verif.Svc/Nope", "/verif.Svc", "/", "/verif.Svc/Unary/x", "/other.Svc/Unary", "/verif.Svc/unary", "/verif.svc/Unary", "/Verif.Svc/Bidi2"}).Draw(t, "badpath")
 	}
 	kind := c11Paths[c.Path]
+	if rapid.IntRange(0, 3).Draw(t, "withbase") == 0 {
+		// a server mounted under a base path: the same method paths outside it are unknown paths
+		c.Base = rapid.SampledFrom([]string{"/api/v1", "/x", "/verif.Svc"}).Draw(t, "base")
+		switch rapid.IntRange(0, 5).Draw(t, "basepath") {
+		case 0, 1, 2:
+			c.Path = c.Base + c.Path
+		case 3:
+			// left as is: not under the base
+			kind = ""
+		case 4:
+			c.Path, kind = c.Base+"x"+c.Path, ""
+		default:
+			c.Path, kind = c.Base[:len(c.Base)-1]+c.Path, ""
+			if strings.Contains(c.Path, "//") {
+				c.Path = c.Base + "y" + c.Path[1:] // keep the path clean (unclean ones are redirected by ServeMux)
+			}
+		}
+	}
 	// content type: mostly one that fits, else from the grammar
 	switch rapid.IntRange(0, 15).Draw(t, "ctmode") {
 	case 0:
